@@ -169,6 +169,7 @@ void
 #endif
 
     singular   = 0;
+    SLU_VERIF_EV(SLU_VEV_THREAD_BEGIN, pnum, 0, 0, 0, pxgstrf_shared);
     m          = A->nrow;
     n          = A->ncol;
     lsub       = Glu->lsub;
@@ -258,6 +259,10 @@ void
 		}
 
 		/* Release the whole relaxed supernode */
+#ifdef SLU_MT_VERIF
+		for (jj = jcol; jj < jcol + w; ++jj) 
+		    SLU_VERIF_EV(SLU_VEV_RELEASE, pnum, jj, jcol, 1, pxgstrf_shared);
+#endif
 		for (jj = jcol; jj < jcol + w; ++jj) 
 		    pxgstrf_shared->spin_locks[jj] = 0;
 #ifdef PREDICT_OPT
@@ -361,6 +366,7 @@ void
 
                     /* release column "jj", so that the other processes
                        waiting for this column can proceed */
+		    SLU_VERIF_EV(SLU_VEV_RELEASE, pnum, jj, jcol, 0, pxgstrf_shared);
 		    pxgstrf_shared->spin_locks[jj] = 0;
 		    
 		    /* copy the U-segments to ucol[*] */
@@ -390,6 +396,7 @@ void
 		
 	    } /* else regular panel ... */
 	    
+	    SLU_VERIF_EV(SLU_VEV_DONE, pnum, jcol, 0, 0, pxgstrf_shared);
 	    STATE( jcol ) = DONE; /* Release panel jcol. */
 	    
 #ifdef PROFILE
@@ -412,6 +419,7 @@ void
     } /* while there are more panels */
 
     *info = singular;
+    SLU_VERIF_EV(SLU_VEV_THREAD_END, pnum, singular, 0, 0, pxgstrf_shared);
 
     /* Free work space and compress storage */
     pcgstrf_WorkFree(iwork, dwork, Glu);
